@@ -287,7 +287,7 @@ func (w *World) selectAll(t string) (rows []*storage.Row, fields []*storage.Fiel
 func (w *World) observe() (map[string][]RowOut, []string) {
 	out := map[string][]RowOut{}
 	var probs []string
-	for _, t := range []string{"t1", "t2", "t3"} {
+	for _, t := range []string{"t1", "t2", "t3", "T1"} {
 		rows, fields, err := w.selectAll(t)
 		if err != nil {
 			if errors.Is(err, storage.ErrTableNotExist) {
@@ -967,8 +967,8 @@ func (w *World) graph() (*Graph, []string) {
 	h, pages := storage.VerifDumpView(rs)
 	g := &Graph{Pages: pages, Roots: []int{h.PtRoot}, Names: []string{"sys_pages"}}
 	var probs []string
-	roots := storage.VerifRoots(rs, []string{"sys_schema", "t1", "t2", "t3"})
-	for _, n := range []string{"sys_schema", "t1", "t2", "t3"} {
+	roots := storage.VerifRoots(rs, []string{"sys_schema", "t1", "t2", "t3", "T1"})
+	for _, n := range []string{"sys_schema", "t1", "t2", "t3", "T1"} {
 		r, ok := roots[n]
 		if !ok {
 			continue
